@@ -56,6 +56,31 @@ impl Step {
             ConcatN(v) | StackN(v) | TupleN(v) | VectorN(v) | NamedTupleN(v) => v.clone(),
         }
     }
+    /// the same binary step with its two operands exchanged (None: not binary, or both operands are one node)
+    pub fn swapped(&self) -> Option<Step> {
+        use Step::*;
+        let s = match self {
+            Add(a, b) => Add(*b, *a),
+            Sub(a, b) => Sub(*b, *a),
+            Mul(a, b) => Mul(*b, *a),
+            MixedMul(a, b) => MixedMul(*b, *a),
+            Dot(a, b) => Dot(*b, *a),
+            Matmul(a, b) => Matmul(*b, *a),
+            Gemm(a, b, ta, tb) => Gemm(*b, *a, *ta, *tb),
+            Stack(a, b) => Stack(*b, *a),
+            Concat(a, b, ax) => Concat(*b, *a, *ax),
+            Tuple(a, b) => Tuple(*b, *a),
+            NamedTuple(a, b) => NamedTuple(*b, *a),
+            Vector(a, b) => Vector(*b, *a),
+            Zip(a, b) => Zip(*b, *a),
+            _ => return None,
+        };
+        let o = self.operands();
+        if o[0] == o[1] {
+            return None;
+        }
+        Some(s)
+    }
     /// does the protocol for this step produce a 3-out-of-3 sharing / use PRF masks when operands are private?
     pub fn is_multiplicative(&self) -> bool {
         matches!(
